@@ -166,6 +166,16 @@ package fptower
 //@ modifies z
 //@ end
 
+// E2.Div: z·y = x·(N(y)·inv(N(y))), i.e. z = x/y whenever the norm of y is invertible (and z = 0 when y = 0:
+// inv(0) = 0). Proved from the contracts of Inverse, Mul and Set (their bodies are not re-executed).
+//@ func E2.Div
+//@ layer ring fp.Element
+//@ option distribute
+//@ ensures[quotient] qmul((-1), vec(z), old(vec(y))) == vscale(qnorm((-1), old(vec(y))) * inv(qnorm((-1), old(vec(y)))), old(vec(x)))
+//@ ensures[result] result == z
+//@ modifies z
+//@ end
+
 //@ func E2.Inverse
 //@ layer ring fp.Element
 //@ option distribute
@@ -230,6 +240,17 @@ package fptower
 //@ end
 
 // ---------------- E6 over E2 ----------------
+
+// E6.Div: z·y = x·(N(y)·inv(N(y))). The bodies of Inverse and Mul are executed in place (the cubic case is out of the
+// solver's reach from the two contracts alone): the clause is then a polynomial identity in the 9 coordinates and inv(N).
+//@ func E6.Div
+//@ layer ring E2
+//@ option distribute
+//@ option inline-callees Inverse Mul
+//@ ensures[quotient] qmul(NR_E2, vec(z), old(vec(y))) == vscale(qnorm(NR_E2, old(vec(y))) * inv(qnorm(NR_E2, old(vec(y)))), old(vec(x)))
+//@ ensures[result] result == z
+//@ modifies z
+//@ end
 
 //@ func E6.Inverse
 //@ layer ring E2
@@ -339,6 +360,16 @@ package fptower
 //@ func E12.Square
 //@ layer ring E6
 //@ ensures[value] vec(z) == qsq(NR_E6, old(vec(x)))
+//@ ensures[result] result == z
+//@ modifies z
+//@ end
+
+// E12.Div: z·y = x·(N(y)·inv(N(y))), i.e. z = x/y whenever the norm of y is invertible (and z = 0 when y = 0:
+// inv(0) = 0). Proved from the contracts of Inverse, Mul and Set (their bodies are not re-executed).
+//@ func E12.Div
+//@ layer ring E6
+//@ option distribute
+//@ ensures[quotient] qmul(NR_E6, vec(z), old(vec(y))) == vscale(qnorm(NR_E6, old(vec(y))) * inv(qnorm(NR_E6, old(vec(y)))), old(vec(x)))
 //@ ensures[result] result == z
 //@ modifies z
 //@ end
